@@ -1,4 +1,6 @@
 """C15 - expansions depend on no name from the caller's scope (TPL-HYG, TPL-METH, TPL-EXPORT)."""
+import re
+
 from .. import ast as A
 from .. import tpl as T
 
@@ -357,3 +359,125 @@ def rule_tpl_export(ctx):
                 if not ok:
                     ctx.report(construct, f"{t.file.rel}:{t.file.line(x['span'][0])}", f"template in `{t.fn.qual}` emits a path with no backing export: {why}", {"template": t.text()[:300]})
     ctx.floor("derive_more:: paths", n, 110)
+
+
+# ---------------------------------------------------------------- TPL-ASSOC
+
+# `derive_more::core::..::<Y>::<z>(`: what <Y> is and why <z> resolves without anything in scope
+CORE_ASSOC = {
+    ("option::Option", "Some"): "enum variant",
+    ("option::Option", "None"): "enum variant",
+    ("result::Result", "Ok"): "enum variant",
+    ("result::Result", "Err"): "enum variant",
+}
+# inherent methods of core types, verified against the toolchain's rust-src on every run
+CORE_INHERENT = {
+    "fmt::Formatter": ("fmt/mod.rs", "Formatter"),
+    "fmt::DebugStruct": ("fmt/builders.rs", "DebugStruct"),
+    "fmt::DebugTuple": ("fmt/builders.rs", "DebugTuple"),
+}
+# facade paths whose last-but-one segment is a *trait*: `Trait::method(..)` is fully qualified
+FACADE_TRAITS = {"with_trait::Error": "re-export of core::error::Error (src/lib.rs `with_trait`)"}
+
+_core_inherent_cache = {}
+
+
+def _core_inherent(ctx, relpath, ty):
+    key = (relpath, ty)
+    if key in _core_inherent_cache:
+        return _core_inherent_cache[key]
+    import os
+    import subprocess
+
+    sysroot = subprocess.run(["rustc", "+nightly", "--print", "sysroot"], capture_output=True, text=True).stdout.strip()
+    p = os.path.join(sysroot, "lib/rustlib/src/rust/library/core/src", relpath)
+    if not os.path.exists(p):
+        raise A.AnchorLost(f"core/src/{relpath}", "rust-src of the nightly toolchain not found")
+    f = A.load_files([p])[p]
+    out = set()
+    for it, mods, cfgs in A.iter_items(f.ast["items"]):
+        if A.kind(it) == "Item::Impl" and not it.get("trait_") and A.type_str(it["self_ty"]).split("::")[-1] == ty:
+            for ii in it["items"]:
+                if A.kind(ii) == "ImplItem::Fn":
+                    out.add(ii["sig"]["ident"]["sym"])
+    _core_inherent_cache[key] = out
+    return out
+
+
+def _facade_index(ctx):
+    """types (with inherent fns and variants), traits and free fns defined in the facade crate (src/**)"""
+    types, traits, fns = {}, set(), set()
+    for rel, f in ctx.files.items():
+        if not rel.startswith("src/"):
+            continue
+        for it, mods, cfgs in A.iter_items(f.ast["items"]):
+            k = A.kind(it)
+            if k in ("Item::Struct", "Item::Enum"):
+                d = types.setdefault(it["ident"]["sym"], {"fns": set(), "variants": set(), "file": rel})
+                if k == "Item::Enum":
+                    d["variants"].update(v["ident"]["sym"] for v in it["variants"])
+            elif k == "Item::Trait":
+                traits.add(it["ident"]["sym"])
+            elif k == "Item::Fn":
+                fns.add(it["sig"]["ident"]["sym"])
+        for it, mods, cfgs in A.iter_items(f.ast["items"]):
+            if A.kind(it) == "Item::Impl" and not it.get("trait_"):
+                nm = A.type_str(it["self_ty"]).split("::")[-1]
+                d = types.setdefault(nm, {"fns": set(), "variants": set(), "file": rel})
+                for ii in it["items"]:
+                    if A.kind(ii) == "ImplItem::Fn":
+                        d["fns"].add(ii["sig"]["ident"]["sym"])
+    return types, traits, fns
+
+
+def rule_tpl_assoc(ctx):
+    """TPL-ASSOC: every call through a path `derive_more::..::<Y>::<z>(` written literally in a template resolves without anything in the caller's scope: <Y> is a trait (fully qualified call), or <z> is a variant / an *inherent* associated function of the type <Y> (looked up in the facade's sources, for core types in the toolchain's rust-src), or a free function. An associated function that only a trait provides (`Conv::<..>::default()`) needs that trait in scope at the derive site and breaks under `#[no_implicit_prelude]`."""
+    types, traits, fns = _facade_index(ctx)
+    n = 0
+    for t in T.all_templates(ctx.files):
+        s = T.ir_text(t.ir).replace(" ", "")
+        for m in re.finditer(r"derive_more((?:::\w+)+)(::<[^()]*?>)?::(\w+)\(", s):
+            segs = m.group(1).strip(":").split("::")
+            z = m.group(3)
+            n += 1
+            site = "derive_more::" + "::".join(segs) + ("::<..>" if m.group(2) else "") + "::" + z
+            key = f"{t.file.rel}::{t.fn.qual}:{site}"
+            ctx.instance(key, sample={"site": site, "in": f"{t.file.rel}::{t.fn.qual}"})
+            where = f"{t.file.rel}:{t.line}"
+            y = segs[-1]
+            why = None
+            if segs[0] == "core":
+                cy = "::".join(segs[1:])
+                if (cy, z) in CORE_ASSOC:
+                    why = CORE_ASSOC[(cy, z)]
+                elif cy in CORE_INHERENT:
+                    inh = _core_inherent(ctx, *CORE_INHERENT[cy])
+                    if z in inh:
+                        why = "inherent (core)"
+                    else:
+                        ctx.report(key, where, f"template in `{t.fn.qual}` calls `{site}(..)`: `{z}` is not an inherent function of `core::{cy}` in the toolchain's sources", {})
+                        continue
+            elif "::".join(segs) in FACADE_TRAITS or y in traits:
+                why = "trait path (fully qualified call)"
+            elif y in types:
+                d = types[y]
+                if z in d["variants"]:
+                    why = "enum variant"
+                elif z in d["fns"]:
+                    why = "inherent"
+                else:
+                    ctx.report(
+                        key,
+                        where,
+                        f"template in `{t.fn.qual}` calls `{site}(..)`: `{y}` ({d['file']}) has no inherent associated function or variant `{z}`, so the call resolves through a trait that must be *in scope at the derive site* "
+                        f"(e.g. `Default`): it fails under `#[no_implicit_prelude]`; write `<{y}<..> as derive_more::core::..::Trait>::{z}()`",
+                        {},
+                    )
+                    continue
+            elif len(segs) >= 1 and z in fns and (segs[-1] in ("__private",) or len(segs) == 1):
+                why = "free function of the facade"
+            elif z in fns and segs[0] == "__private":
+                why = "free function of the facade"
+            if why is None:
+                ctx.report(key, where, f"template in `{t.fn.qual}` calls `{site}(..)`: no audited resolution for `{z}` on `{'::'.join(segs)}` (not a known trait, inherent function, variant or free function)", {})
+    ctx.floor("path calls in templates", n, 30)
